@@ -19,7 +19,7 @@ EXPLANATION = (
     "The neighbour searches are decided structurally: the brute-force kernel is small enough to establish order, uniqueness (push_back followed by break), self exclusion, strictness of the cutoff "
     "test and the wrap on differences from the guards and statement order of its two loops; for the cell list the symmetric completion argument (collect i>j only, then mirror) is checked as written, "
     "together with the one precondition of the voxel arithmetic that is visible in the code: periodic positions are wrapped into the primary cell before they are hashed, sorted and compared with the box edges.")
-NOT_DECIDED = ["the voxel range arithmetic of Voxels::getNeighbors (which voxels / x-ranges are visited)", "set equality with compute_distances near the cutoff", "triclinic cells whose minimum image needs the 27-image search (compute_neighbors wraps once)"]
+NOT_DECIDED = ["the x-range arithmetic and corner pruning of Voxels::getNeighbors (that the y row of a z voxel is complete under triclinic cells is decided, C10-R5)", "set equality with compute_distances near the cutoff", "triclinic cells whose minimum image needs the 27-image search (compute_neighbors wraps once)"]
 ASSUMPTIONS = ["unit cell vectors are in the lower-triangular form mdtraj produces"]
 FLOORS = {"C10-R1": 3, "C10-R2": 7, "C10-R3": 1, "C10-R4": 12, "C10-R5": 4}
 
